@@ -46,17 +46,48 @@ theorem spellOut_append (d : Nat) (a b : List (Op α)) : spellOut d (a ++ b) = s
 section
 variable [Lean.Grind.CommRing α] [DecidableEq α] [LT α] [DecidableLT α]
 
+theorem showText_shift (adv : Adv α) (sid : Nat) (s : State α) (k : Nat) :
+    showText adv sid { s with xdepth := k } =
+      ({ (showText adv sid s).1 with xdepth := k }, (showText adv sid s).2) := by
+  simp [showText, State.advanceText, State.mapText, State.getTextPosition]
+
+theorem showTextArray_shift (adv : Adv α) (items : List (TJItem α)) (s : State α) (k : Nat) :
+    showTextArray adv items { s with xdepth := k } =
+      ({ (showTextArray adv items s).1 with xdepth := k }, (showTextArray adv items s).2) := by
+  induction items generalizing s with
+  | nil => rfl
+  | cons it rest ih =>
+    cases it with
+    | str sid =>
+      simp only [showTextArray, showText_shift]
+      rw [ih]
+    | num v =>
+      simp only [showTextArray]
+      have h : ({ s with xdepth := k } : State α).advanceText (adv s.cur.text (.num v))
+          = { s.advanceText (adv s.cur.text (.num v)) with xdepth := k } := by
+        simp [State.advanceText, State.mapText]
+      rw [h, ih]
+
 /-- the nesting depth plays no part in an operator that is not `Do` -/
 theorem stepBasic_shift (adv : Adv α) (op : Op α) (s : State α) (k : Nat) :
     stepBasic adv op { s with xdepth := k } =
       ({ (stepBasic adv op s).1 with xdepth := k }, (stepBasic adv op s).2.1, (stepBasic adv op s).2.2) := by
-  cases op <;>
+  cases op with
+  | quote sid =>
+    have h : ({ s with xdepth := k } : State α).nextLine = { s.nextLine with xdepth := k } := rfl
+    simp only [stepBasic, h, showText_shift]
+  | dquote aw ac sid =>
+    have h : ((({ s with xdepth := k } : State α).setWordSpacing aw).setCharSpacing ac).nextLine
+        = { ((s.setWordSpacing aw).setCharSpacing ac).nextLine with xdepth := k } := rfl
+    simp only [stepBasic, h, showText_shift]
+  | Q =>
+    cases s with | mk c st d =>
+    cases st <;> simp [stepBasic, State.restore]
+  | _ =>
     simp [stepBasic, State.save, State.transform, State.beginText, State.mapText, State.setFont,
       State.setTextMatrix, State.translateText, State.translateTextSetLeading, State.setLeading,
       State.nextLine, State.setCharSpacing, State.setWordSpacing, State.setHorizontalScaling,
-      showText, State.getTextPosition]
-  cases s with | mk c st d =>
-  cases st <;> simp [State.restore]
+      State.setTextRise, showText_shift, showTextArray_shift]
 
 theorem step_formFree (adv : Adv α) (op : Op α) (h : ∀ m b, op ≠ Op.form m b) (s : State α) :
     step adv op s = stepBasic adv op s := by
